@@ -118,6 +118,23 @@ WHY = {
  "v2_set-196-5-42": "equivalent: dead base case of jsonSet.patch",
  "v2_object-228-16-44": "outside the properties: differs only for a hand-written native merge hunk that adds a one-member object onto an object; jd's merge diffs and its merge patch reader recurse into objects and never produce one",
  "v2_list-414-14-4": "equivalent: inside a switch, break leaves the switch and the loop goes on as with continue (looking at it showed that C03 never changed the OUTER line of two-line context; change-before-2 / change-after-2 added and confirmed with a hand-made mutant that skips the outer line)",
+ "main-415-13-14": "equivalent: the flag is ignored on the error path",
+ "lib_list-131-7-23": "outside the properties: a hunk with several removed values addressed to a v1 list base case is never emitted",
+ "lib_set-56-12-13": "equivalent: only the keys of that map are used",
+ "v2_diff_write-239-14-4": "equivalent: a void removal is the only removed value of its hunk",
+ "lib_object-145-21-19": "equivalent: prependMetadataMerge builds a new slice itself",
+ "v2_list-360-7-27": "outside the properties: a hunk that replaces a whole list and carries several removed values is never emitted; the clean tree rejects it, the mutant uses the first value",
+ "lib_list-203-7-11": "outside the properties: only changes (to a panic) what the v1 patch does with an addition beyond the end of the array; C17/C18 quantify over jd's own diffs",
+ "lib_object-200-21-44": "equivalent: prependMetadataMerge builds a new slice itself",
+ "lib_multiset-124-5-13": "equivalent: a loop of zero iterations",
+ "lib_path-109-14-3": "equivalent for the properties: v1 writes MERGE as the first metadata entry, so nothing that is not a string precedes it",
+ "v2_object-254-16-6": "equivalent: under the merge strategy the empty document creates the missing objects on the way down exactly as an empty object does",
+ "lib_patch_common-90-5-19": "equivalent for the properties: only the wording of an error message changes",
+ "v2_list-253-4-13": "equivalent: once a sub-diff has been appended the first hunk already has its after-context",
+ "v2_jd_main-139-7-31": "outside the properties: -precision together with -set is an unsupported flag combination (C14 quantifies over the supported ones)",
+ "v2_jd_main-262-13-13": "equivalent: the flag is ignored on the error path",
+ "lib_path-29-6-45": "equivalent: dead branch of prependMetadataMerge",
+ "v2_multiset-177-20-2": "equivalent: dead base case of jsonMultiset.patch",
  "v2_multiset-172-5-20": "equivalent: dead base case of jsonMultiset.patch",
  "lib_multiset-163-7-24": "equivalent: dead base case of the v1 multiset patch",
  "lib_multiset-163-5-42": "equivalent: dead base case of the v1 multiset patch",
